@@ -1,522 +1,483 @@
-(* C02_Proofs.v — lemmas and proofs for property C02 (the verification level
-   alone decides which failed validations reject). *)
-From NV Require Import Base Regex Generated C02_Levels VerifyCore C02_Model.
+(* C02_Proofs.v — the theorems of property C02 (the verification level alone
+   decides which failed validations reject), derived from C02_Core. *)
+From NV Require Import Base Regex Generated C02_Levels VerifyCore C02_Model C02_Core.
 Open Scope string_scope.
 Open Scope list_scope.
 
 (* ================================================================== *)
-(* 1. Levels: GetVerificationLevel over the generated tables           *)
+(* 3. The theorems of the property                                     *)
 (* ================================================================== *)
 
-Lemma action_eqb_eq a b : action_eqb a b = true <-> a = b.
-Proof. destruct a, b; cbn; split; congruence. Qed.
-
-Lemma level_eqb_eq a b : level_eqb a b = true <-> a = b.
+Lemma core_exact lvl sc : wf_sc sc = true ->
+  accepted (verify_core lvl sc) = negb (should_fail_impl lvl sc).
 Proof.
-  destruct a as [a1 a2 a3 a4], b as [b1 b2 b3 b4]. unfold level_eqb; cbn.
-  rewrite !andb_true_iff, !action_eqb_eq. split.
-  - intros [[[-> ->] ->] ->]. reflexivity.
-  - intros E. inversion E. auto.
+  intros W. pose proof (core_ok lvl sc W) as H. unfold spec_impl in H.
+  apply andb_true_iff in H. destruct H as [H _]. apply Bool.eqb_prop in H.
+  rewrite <- H. now rewrite negb_involutive.
 Qed.
 
-Definition level_ok (l : level) : bool :=
-  negb (action_eqb (l_auth l) Skip) && negb (action_eqb (l_ts l) Skip) && negb (action_eqb (l_exp l) Skip).
-
-Lemma in_all_24_b l : existsb (level_eqb l) all_24 = level_ok l.
-Proof. destruct l as [[] [] [] []]; reflexivity. Qed.
-
-Lemma in_existsb_level l ls : In l ls <-> existsb (level_eqb l) ls = true.
+Lemma core_shape lvl sc : wf_sc sc = true -> spec_shape lvl sc (verify_core lvl sc) = true.
 Proof.
-  rewrite existsb_exists. split.
-  - intros H. exists l. split; [exact H | now apply level_eqb_eq].
-  - intros (x & H & E). apply level_eqb_eq in E. now subst.
+  intros W. pose proof (core_ok lvl sc W) as H. unfold spec_impl in H.
+  apply andb_true_iff in H. tauto.
 Qed.
 
-Lemma all_24_spec l :
-  In l all_24 <-> (l_auth l <> Skip /\ l_ts l <> Skip /\ l_exp l <> Skip).
+(* the conjuncts of spec_shape, one by one *)
+Lemma shape_parts lvl sc o : spec_shape lvl sc o = true ->
+  forallb (fun r => action_eqb (r_action r) (act_of lvl (r_type r))) (o_results o) = true
+  /\ is_prefix (map r_type (o_results o)) type_order = true
+  /\ (negb (accepted o) || list_eqb result_eqb (o_results o) (expected_results lvl sc)) = true
+  /\ match o_err o with
+     | EResult t => existsb (fun r => vtype_eqb (r_type r) t && action_eqb (r_action r) Enforce && r_failed r) (o_results o)
+     | _ => true
+     end = true
+  /\ (negb (existsb (fun r => action_eqb (r_action r) Enforce && r_failed r) (o_results o)) || negb (accepted o)) = true
+  /\ match o_err o with
+     | EInconclusive | EOther => plugin_or_attribute_problem lvl sc
+     | _ => true
+     end = true
+  /\ (negb (action_eqb (l_rev lvl) Skip)
+      || (negb (o_rev_called o)
+          && match o_exec o with Some (cs, _) => negb (has_cap CapRev cs) | None => true end
+          && negb (existsb (fun r => vtype_eqb (r_type r) TRev) (o_results o)))) = true
+  /\ (negb (o_rev_called o) || negb (has_cap CapRev (caps_of sc))) = true
+  /\ match o_exec o with
+     | Some (cs, _) => nonempty cs && list_eqb cap_eqb cs (asked lvl sc)
+     | None => true
+     end = true
+  /\ (negb (accepted o) || Bool.eqb (negb (is_none (o_exec o))) (nonempty (asked lvl sc))) = true.
+Proof. unfold spec_shape. rewrite !andb_true_iff. tauto. Qed.
+
+(* ---------- C02_exact ---------- *)
+Lemma exact_iff lvl sc : wf_sc sc = true ->
+  (accepted (verify_core lvl sc) = false <-> should_fail_impl lvl sc = true).
+Proof. intros W. rewrite (core_exact lvl sc W). destruct (should_fail_impl lvl sc); cbn; split; congruence. Qed.
+
+Lemma should_fail_impl_iff lvl sc :
+  should_fail_impl lvl sc = true <->
+  s_integrity_ok sc = false \/ enforced_failure lvl sc = true \/ plugin_or_attribute_problem lvl sc = true.
 Proof.
-  rewrite in_existsb_level, in_all_24_b. unfold level_ok.
-  rewrite !andb_true_iff, !negb_true_iff.
-  assert (X : forall a, action_eqb a Skip = false <-> a <> Skip) by (intros []; cbn; split; congruence).
-  rewrite !X. tauto.
+  unfold should_fail_impl. rewrite !orb_true_iff, negb_true_iff. tauto.
 Qed.
 
-Lemma all_24_length : List.length all_24 = 24%nat.
-Proof. reflexivity. Qed.
-
-Fixpoint nodupb (l : list level) : bool :=
-  match l with [] => true | x :: r => negb (existsb (level_eqb x) r) && nodupb r end.
-
-Lemma nodupb_NoDup l : nodupb l = true -> NoDup l.
-Proof.
-  induction l as [|x r IH]; cbn; intros H; constructor.
-  - apply andb_true_iff in H. destruct H as [H _]. apply negb_true_iff in H.
-    intros HIn. apply in_existsb_level in HIn. congruence.
-  - apply IH. apply andb_true_iff in H. tauto.
-Qed.
-
-Lemma all_24_nodup : NoDup all_24.
-Proof. apply nodupb_NoDup. reflexivity. Qed.
-
-(* reached from the three named levels by the legal overrides: exactly the 24 maps *)
-Lemma reachable_sub : forallb (fun l => existsb (level_eqb l) all_24) reachable_levels = true.
-Proof. vm_compute. reflexivity. Qed.
-
-Lemma reachable_sup : forallb (fun l => existsb (level_eqb l) reachable_levels) all_24 = true.
-Proof. vm_compute. reflexivity. Qed.
-
-Lemma reachable_iff l : In l reachable_levels <-> In l all_24.
-Proof.
-  split; intros H.
-  - apply in_existsb_level. exact (proj1 (forallb_forall _ _) reachable_sub l H).
-  - apply in_existsb_level. exact (proj1 (forallb_forall _ _) reachable_sup l H).
-Qed.
-
-(* ---------- GetVerificationLevel for an arbitrary override ---------- *)
-Lemma lookup_remove_key k k' m :
-  lookup k (remove_key k' m) = if String.eqb k k' then None else lookup k m.
-Proof.
-  induction m as [|[a b] m IH]; cbn.
-  - destruct (String.eqb k k'); reflexivity.
-  - destruct (String.eqb k' a) eqn:E1.
-    + apply String.eqb_eq in E1. subst a. rewrite IH. destruct (String.eqb k k'); reflexivity.
-    + cbn. rewrite IH. destruct (String.eqb k a) eqn:E2; [|reflexivity].
-      apply String.eqb_eq in E2. subst a. rewrite String.eqb_sym, E1. reflexivity.
-Qed.
-
-Lemma lookup_default_set_key k k' v m :
-  lookup_default k (set_key k' v m) = if String.eqb k k' then v else lookup_default k m.
-Proof.
-  unfold lookup_default, set_key. cbn. destruct (String.eqb k k') eqn:E; [reflexivity|].
-  rewrite lookup_remove_key, E. reflexivity.
-Qed.
-
-Lemma mem_str_In x l : mem_str x l = true -> In x l.
-Proof.
-  unfold mem_str. rewrite existsb_exists. intros (y & H & E). apply String.eqb_eq in E. now subst.
-Qed.
-
-Definition two (s : string) : bool := String.eqb s "enforce" || String.eqb s "log".
-Definition three (s : string) : bool := two s || String.eqb s "skip".
-
-(* invariant of the custom map: integrity enforce, three types enforce/log, revocation any action *)
-Definition enf_ok (enf : amap) : bool :=
-  String.eqb (lookup_default "integrity" enf) "enforce"
-  && two (lookup_default "authenticity" enf) && two (lookup_default "authenticTimestamp" enf)
-  && two (lookup_default "expiry" enf) && three (lookup_default "revocation" enf).
-
-Lemma two_cases s : two s = true -> s = "enforce" \/ s = "log".
-Proof. unfold two. rewrite orb_true_iff, !String.eqb_eq. tauto. Qed.
-
-Lemma three_cases s : three s = true -> s = "enforce" \/ s = "log" \/ s = "skip".
-Proof. unfold three. rewrite orb_true_iff, String.eqb_eq. intros [H|H]; [apply two_cases in H|]; tauto. Qed.
-
-Lemma enf_ok_level enf : enf_ok enf = true ->
-  lookup_default "integrity" enf = "enforce" /\ In (level_of enf) all_24.
-Proof.
-  unfold enf_ok. rewrite !andb_true_iff. intros [[[[H0 H1] H2] H3] H4].
-  apply String.eqb_eq in H0. split; [exact H0|].
-  apply all_24_spec. unfold level_of, enf_action; cbn.
-  apply two_cases in H1, H2, H3.
-  repeat split; [destruct H1 as [-> | ->] | destruct H2 as [-> | ->] | destruct H3 as [-> | ->]]; cbn; discriminate.
-Qed.
-
-Lemma base_levels_ok : forall n, In n base_names ->
-  exists base, find_level n gen_levels = Some base /\ enf_ok base = true.
-Proof.
-  intros n H. cbn in H. destruct H as [<- | [<- | [<- | []]]]; eexists; (split; [vm_compute; reflexivity | vm_compute; reflexivity]).
-Qed.
-
-Lemma apply_override_ok enf kv enf' :
-  enf_ok enf = true -> apply_override enf kv = inr enf' -> enf_ok enf' = true /\ legal_entry kv.
-Proof.
-  destruct kv as [k v]. unfold apply_override.
-  destruct (mem_str k gen_validation_types) eqn:Hk; cbn [negb]; [|discriminate].
-  destruct (mem_str v gen_validation_actions) eqn:Hv; cbn [negb]; [|discriminate].
-  apply mem_str_In in Hk, Hv. cbn in Hk, Hv. intros OK.
-  unfold enf_ok in OK. rewrite !andb_true_iff in OK. destruct OK as [[[[H0 H1] H2] H3] H4].
-  unfold legal_entry; cbn [fst snd].
-  destruct Hk as [<- | [<- | [<- | [<- | [<- | []]]]]]; cbn [String.eqb Ascii.eqb Bool.eqb andb negb];
-    try discriminate;
-    destruct Hv as [<- | [<- | [<- | []]]]; cbn [String.eqb Ascii.eqb Bool.eqb andb negb];
-    try discriminate.
-  all: intros E; injection E as E; subst enf'; (split; [|tauto]).
-  all: unfold enf_ok; rewrite !lookup_default_set_key; cbn [String.eqb Ascii.eqb Bool.eqb andb negb].
-  all: rewrite ?H0, ?H1, ?H2, ?H3, ?H4; reflexivity.
-Qed.
-
-Lemma apply_overrides_ok ov : forall enf enf',
-  enf_ok enf = true -> apply_overrides enf ov = inr enf' -> enf_ok enf' = true /\ Forall legal_entry ov.
-Proof.
-  induction ov as [|kv ov IH]; cbn; intros enf enf' OK E.
-  - injection E as <-. split; [exact OK | constructor].
-  - destruct (apply_override enf kv) as [e|enf1] eqn:E1; [discriminate|].
-    destruct (apply_override_ok _ _ _ OK E1) as [OK1 L1].
-    destruct (IH _ _ OK1 E) as [OK2 L2]. split; [exact OK2 | constructor; assumption].
-Qed.
-
-Lemma find_level_names n base : find_level n gen_levels = Some base ->
-  n = "skip" \/ In n base_names.
-Proof.
-  unfold gen_levels. cbn [find_level].
-  destruct (String.eqb "skip" n) eqn:E4; [apply String.eqb_eq in E4; auto|].
-  destruct (String.eqb "audit" n) eqn:E3; [apply String.eqb_eq in E3; subst; cbn; auto|].
-  destruct (String.eqb "permissive" n) eqn:E2; [apply String.eqb_eq in E2; subst; cbn; auto|].
-  destruct (String.eqb "strict" n) eqn:E1; [apply String.eqb_eq in E1; subst; cbn; auto|].
-  discriminate.
-Qed.
-
-Lemma get_level_sound name ov nm enf :
-  name <> "skip" -> get_level name ov = inr (nm, enf) ->
-  In name base_names /\ Forall legal_entry ov
-  /\ lookup_default "integrity" enf = "enforce" /\ In (level_of enf) all_24.
-Proof.
-  intros NS. unfold get_level.
-  destruct (String.eqb name "") eqn:E0; [discriminate|].
-  destruct (find_level name gen_levels) as [base|] eqn:F; [|discriminate].
-  destruct (find_level_names _ _ F) as [->|HIn]; [congruence|].
-  destruct (base_levels_ok _ HIn) as (base' & F' & OK). rewrite F in F'. injection F' as <-.
-  destruct ov as [|kv ov].
-  - intros E. injection E as <- <-. split; [exact HIn|]. split; [constructor|]. now apply enf_ok_level.
-  - destruct (String.eqb name "skip"); [discriminate|].
-    destruct (apply_overrides base (kv :: ov)) as [e|enf1] eqn:E1; [discriminate|].
-    intros E. injection E as <- <-.
-    destruct (apply_overrides_ok _ _ _ OK E1) as [OK1 L]. split; [exact HIn|]. split; [exact L|].
-    now apply enf_ok_level.
-Qed.
-
-Lemma get_level_skip ov nm enf : get_level "skip" ov = inr (nm, enf) -> ov = [].
-Proof.
-  unfold get_level. cbn [String.eqb Ascii.eqb Bool.eqb andb].
-  destruct (find_level "skip" gen_levels); [|discriminate].
-  destruct ov; [reflexivity | discriminate].
-Qed.
-
-(* every legal override is accepted *)
-Lemma apply_override_legal enf kv : legal_entry kv -> exists enf', apply_override enf kv = inr enf'.
-Proof.
-  destruct kv as [k v]. unfold legal_entry; cbn [fst snd].
-  intros [[[-> | [-> | ->]] [-> | ->]] | [-> [-> | [-> | ->]]]]; eexists; vm_compute; reflexivity.
-Qed.
-
-Lemma apply_overrides_legal ov : forall enf, Forall legal_entry ov -> exists enf', apply_overrides enf ov = inr enf'.
-Proof.
-  induction ov as [|kv ov IH]; cbn; intros enf H.
-  - eauto.
-  - inversion H as [|? ? H1 H2]; subst. destruct (apply_override_legal enf kv H1) as [enf1 ->]. now apply IH.
-Qed.
-
-Lemma get_level_complete name ov : In name base_names -> Forall legal_entry ov ->
-  exists nm enf, get_level name ov = inr (nm, enf).
-Proof.
-  intros HIn L. destruct (base_levels_ok _ HIn) as (base & F & _).
-  unfold get_level. rewrite F.
-  cbn in HIn. destruct HIn as [<- | [<- | [<- | []]]]; cbn [String.eqb Ascii.eqb Bool.eqb andb];
-    (destruct ov as [|kv ov]; [eauto|]);
-    destruct (apply_overrides_legal (kv :: ov) base L) as [enf' ->]; eauto.
-Qed.
-
-(* ---------- the same override keeps strict <= permissive <= audit ---------- *)
-Lemma action_le_refl a : action_le a a = true.
-Proof. destruct a; reflexivity. Qed.
-
-Lemma action_le_trans a b c : action_le a b = true -> action_le b c = true -> action_le a c = true.
-Proof. destruct a, b, c; cbn; congruence. Qed.
-
-Lemma level_le_refl l : level_le l l = true.
-Proof. unfold level_le. now rewrite !action_le_refl. Qed.
-
-Lemma level_le_trans a b c : level_le a b = true -> level_le b c = true -> level_le a c = true.
-Proof.
-  unfold level_le. rewrite !andb_true_iff. intros [[[A1 A2] A3] A4] [[[B1 B2] B3] B4].
-  repeat split; eapply action_le_trans; eassumption.
-Qed.
-
-Lemma apply_override_le e1 e2 kv e1' e2' :
-  level_le (level_of e1) (level_of e2) = true ->
-  apply_override e1 kv = inr e1' -> apply_override e2 kv = inr e2' ->
-  level_le (level_of e1') (level_of e2') = true.
-Proof.
-  destruct kv as [k v]. unfold apply_override.
-  destruct (negb (mem_str k gen_validation_types)); [discriminate|].
-  destruct (negb (mem_str v gen_validation_actions)); [discriminate|].
-  destruct (String.eqb k "integrity"); [discriminate|].
-  destruct (negb (String.eqb k "revocation") && String.eqb v "skip"); [discriminate|].
-  intros LE E1 E2. injection E1 as <-. injection E2 as <-.
-  revert LE. unfold level_le, level_of, enf_action. cbn [l_auth l_ts l_exp l_rev].
-  rewrite !lookup_default_set_key, !andb_true_iff. intros [[[A1 A2] A3] A4].
-  repeat split;
-    match goal with |- context [String.eqb ?a k] => destruct (String.eqb a k) end;
-    first [apply action_le_refl | assumption].
-Qed.
-
-Lemma apply_overrides_le ov : forall e1 e2 e1' e2',
-  level_le (level_of e1) (level_of e2) = true ->
-  apply_overrides e1 ov = inr e1' -> apply_overrides e2 ov = inr e2' ->
-  level_le (level_of e1') (level_of e2') = true.
-Proof.
-  induction ov as [|kv ov IH]; cbn; intros e1 e2 e1' e2' LE E1 E2.
-  - injection E1 as <-. injection E2 as <-. exact LE.
-  - destruct (apply_override e1 kv) as [|x1] eqn:A1; [discriminate|].
-    destruct (apply_override e2 kv) as [|x2] eqn:A2; [discriminate|].
-    eapply IH; [|eassumption|eassumption]. eapply apply_override_le; eassumption.
-Qed.
-
-Lemma named_order n1 n2 ov l1 l2 :
-  (n1 = "strict" /\ n2 = "permissive") \/ (n1 = "permissive" /\ n2 = "audit") \/ (n1 = "strict" /\ n2 = "audit") ->
-  level_for n1 ov = Some l1 -> level_for n2 ov = Some l2 -> level_le l1 l2 = true.
-Proof.
-  unfold level_for, get_level.
-  intros [[-> ->] | [[-> ->] | [-> ->]]]; cbn [String.eqb Ascii.eqb Bool.eqb andb];
-  match goal with |- context [find_level ?a gen_levels] =>
-    let b := eval vm_compute in (find_level a gen_levels) in change (find_level a gen_levels) with b end;
-  match goal with |- context [find_level ?a gen_levels] =>
-    let b := eval vm_compute in (find_level a gen_levels) in change (find_level a gen_levels) with b end;
-  (destruct ov as [|kv ov]; [intros E1 E2; injection E1 as <-; injection E2 as <-; vm_compute; reflexivity|]);
-  match goal with |- context [apply_overrides ?b1 ?o] =>
-    destruct (apply_overrides b1 o) as [|x1] eqn:A1; [discriminate|] end;
-  match goal with |- context [apply_overrides ?b2 (kv :: ov)] =>
-    destruct (apply_overrides b2 (kv :: ov)) as [|x2] eqn:A2; [discriminate|] end;
-  intros E1 E2; injection E1 as <-; injection E2 as <-;
-  (eapply apply_overrides_le; [|exact A1|exact A2]); vm_compute; reflexivity.
-Qed.
-
-(* ================================================================== *)
-(* 2. processSignature                                                 *)
-(* ================================================================== *)
-
-(* case analysis on the first match/if scrutinee that is itself free of matches *)
-Ltac destr_head :=
-  match goal with
-  | |- context [match ?x with _ => _ end] =>
-      lazymatch x with
-      | context [match _ with _ => _ end] => fail
-      | _ => destruct x eqn:?
-      end
+Definition failed_fact (sc : scenario) (t : vtype) : bool :=
+  match t with
+  | TIntegrity => negb (s_integrity_ok sc)
+  | TAuth => authenticity_failed sc
+  | TExpiry => s_expired sc
+  | TTimestamp => negb (s_ts_ok sc)
+  | TRev => revocation_failed sc
   end.
 
-Ltac unbool := cbv beta iota delta [negb andb orb implb Bool.eqb is_none nonempty].
+Lemma enforced_true a f : enforced a f = true <-> a = Enforce /\ f = true.
+Proof. destruct a, f; cbn; split; try tauto; try congruence; intros [? ?]; congruence. Qed.
 
-Ltac crush_with fin :=
-  cbn; unbool; first [ solve [fin] | destr_head; crush_with fin ].
-
-Ltac fin0 := first [reflexivity | discriminate | congruence | tauto].
-
-Lemma discover_spec sc :
-  match discover sc with
-  | DErr e gets => (e = EInconclusive \/ e = EOther) /\ (s_nonstring_crit sc || plugin_unusable sc = true)
-  | DNoPlugin => plugin_demanded sc = false /\ s_nonstring_crit sc = false /\ usable_caps sc = None
-  | DPlugin n vc => usable_caps sc = Some vc /\ plugin_demanded sc = true
-                    /\ s_nonstring_crit sc = false /\ vc <> []
-                    /\ (match s_pm sc with PMPlugin _ _ caps => vc = verification_caps caps | _ => False end)
-  end.
+Lemma enforced_failure_iff lvl sc :
+  enforced_failure lvl sc = true <->
+  exists t, t <> TIntegrity /\ act_of lvl t = Enforce /\ failed_fact sc t = true.
 Proof.
-  destruct sc as [integ pa ma mv ot ns au idn ex ts rv p pr].
-  unfold discover, lookup_plugin, minver_error, usable_caps, plugin_unusable, plugin_demanded, attr_malformed.
-  cbn [s_plugin_attr s_minver_attr s_minver_valid s_nonstring_crit s_pm].
-  crush_with ltac:(repeat split; fin0).
+  unfold enforced_failure. rewrite !orb_true_iff, !enforced_true. split.
+  - intros [[[[A F]|[A F]]|[A F]]|[A F]];
+      [exists TAuth | exists TExpiry | exists TTimestamp | exists TRev]; cbn; (split; [discriminate | tauto]).
+  - intros (t & NT & A & F). destruct t; cbn in *; try congruence; tauto.
 Qed.
 
-(* ---------- the native stage ---------- *)
-Definition nat_auth_failed (sc : scenario) (caps : list cap) : bool :=
-  negb (s_auth sc =? 0)%N || (negb (has_cap CapTI caps) && negb (s_identity_ok sc)).
+(* the observational form: rejected iff a reported result is enforced and
+   failed, or there is a plugin / attribute problem *)
+Lemma in_existsb_res (p : result -> bool) rs : existsb p rs = true <-> exists r, In r rs /\ p r = true.
+Proof. apply existsb_exists. Qed.
 
-Definition native_rev (lvl : level) (caps : list cap) : bool :=
-  negb (action_eqb (l_rev lvl) Skip) && negb (has_cap CapRev caps).
-
-Definition nat_results (lvl : level) (sc : scenario) (caps : list cap) : list result :=
-  [mk_res TIntegrity Enforce false;
-   mk_res TAuth (l_auth lvl) (nat_auth_failed sc caps);
-   mk_res TExpiry (l_exp lvl) (s_expired sc);
-   mk_res TTimestamp (l_ts lvl) (negb (s_ts_ok sc))]
-  ++ (if native_rev lvl caps then [mk_res TRev (l_rev lvl) (negb (s_rev_ok sc))] else []).
-
-Definition nat_fail (lvl : level) (sc : scenario) (caps : list cap) : bool :=
-  enforced (l_auth lvl) (nat_auth_failed sc caps)
-  || enforced (l_exp lvl) (s_expired sc)
-  || enforced (l_ts lvl) (negb (s_ts_ok sc))
-  || (native_rev lvl caps && enforced (l_rev lvl) (negb (s_rev_ok sc))).
-
-(* shape of an observation that stops in the native stage *)
-Definition stop_shape (lvl : level) (caps : list cap) (e : err) (rs : list result) (c : bool) : bool :=
-  forallb (fun r => action_eqb (r_action r) (act_of lvl (r_type r))) rs
-  && is_prefix (map r_type rs) type_order
-  && match e with
-     | EResult t => existsb (fun r => vtype_eqb (r_type r) t && action_eqb (r_action r) Enforce && r_failed r) rs
-     | _ => false
-     end
-  && (negb (action_eqb (l_rev lvl) Skip)
-      || (negb c && negb (existsb (fun r => vtype_eqb (r_type r) TRev) rs)))
-  && (negb c || negb (has_cap CapRev caps)).
-
-(* finite enumeration by computation *)
-Definition all_bool (P : bool -> bool) : bool := P true && P false.
-Definition all_act (P : action -> bool) : bool := P Enforce && P Log && P Skip.
-Definition all_optb (P : option bool -> bool) : bool := P None && P (Some true) && P (Some false).
-
-Lemma all_bool_ok (P : bool -> bool) : all_bool P = true -> forall b, P b = true.
-Proof. unfold all_bool. rewrite andb_true_iff. intros [H1 H2] []; assumption. Qed.
-Lemma all_act_ok (P : action -> bool) : all_act P = true -> forall a, P a = true.
-Proof. unfold all_act. rewrite !andb_true_iff. intros [[H1 H2] H3] []; assumption. Qed.
-Lemma all_optb_ok (P : option bool -> bool) : all_optb P = true -> forall o, P o = true.
-Proof. unfold all_optb. rewrite !andb_true_iff. intros [[H1 H2] H3] [[]|]; assumption. Qed.
-
-Ltac enum_bool x := revert x; apply all_bool_ok.
-Ltac enum_act x := revert x; apply all_act_ok.
-Ltac enum_optb x := revert x; apply all_optb_ok.
-
-Lemma vtype_eqb_eq a b : vtype_eqb a b = true <-> a = b.
-Proof. destruct a, b; cbn; split; congruence. Qed.
-
-Lemma result_eqb_eq a b : result_eqb a b = true <-> a = b.
+Lemma exact_reported lvl sc : wf_sc sc = true ->
+  (accepted (verify_core lvl sc) = false <->
+   (exists r, In r (o_results (verify_core lvl sc)) /\ r_action r = Enforce /\ r_failed r = true)
+   \/ plugin_or_attribute_problem lvl sc = true).
 Proof.
-  destruct a as [t1 a1 f1], b as [t2 a2 f2]. unfold result_eqb; cbn.
-  rewrite !andb_true_iff, vtype_eqb_eq, action_eqb_eq, Bool.eqb_true_iff.
-  split; [intros [[-> ->] ->]; reflexivity | intros E; inversion E; auto].
+  intros W. pose proof (shape_parts _ _ _ (core_shape lvl sc W)) as (_ & _ & _ & S4 & S5 & S6 & _).
+  split.
+  - intros R. unfold accepted in R. destruct (o_err (verify_core lvl sc)) as [|t| |] eqn:E; cbn in R; try discriminate.
+    + left. apply in_existsb_res in S4. destruct S4 as (r & HIn & P).
+      rewrite !andb_true_iff in P. destruct P as [[_ A] F]. apply action_eqb_eq in A. eauto.
+    + right. exact S6.
+    + right. exact S6.
+  - intros [(r & HIn & A & F) | P].
+    + apply orb_true_iff in S5. destruct S5 as [S5|S5]; [|now apply negb_true_iff in S5].
+      apply negb_true_iff in S5. exfalso.
+      assert (X : existsb (fun r => action_eqb (r_action r) Enforce && r_failed r) (o_results (verify_core lvl sc)) = true).
+      { apply in_existsb_res. exists r. split; [exact HIn|]. rewrite A, F. reflexivity. }
+      congruence.
+    + apply exact_iff; [exact W|]. apply should_fail_impl_iff. auto.
 Qed.
 
-Lemma err_eqb_eq a b : err_eqb a b = true <-> a = b.
+(* ---------- the known finding: the full statement is refuted, the rest holds ---------- *)
+Definition f12b_level : level := mk_level Enforce Enforce Enforce Skip.
+Definition f12b_scenario : scenario :=
+  mk_sc true (AStr "plug") AAbsent false [("foo", true)] false 0 true false true true
+        (PMPlugin true true [CapRev]) (PResp [] None None).
+
+Lemma full_refuted :
+  exists lvl sc,
+    level_for "strict" [("revocation", "skip")] = Some lvl
+    /\ wf_sc sc = true /\ s_integrity_ok sc = true
+    /\ other_crit sc = ["foo"]                          (* a critical extended attribute *)
+    /\ o_exec (verify_core lvl sc) = None               (* no plugin was executed: nothing processed it *)
+    /\ accepted (verify_core lvl sc) = true             (* and yet the signature is accepted *)
+    /\ should_fail_full lvl sc = true.
+Proof. exists f12b_level, f12b_scenario. repeat split; vm_compute; reflexivity. Qed.
+
+Lemma full_vs_impl lvl sc : f12b lvl sc = false -> noncrit_unprocessed lvl sc = false ->
+  should_fail_full lvl sc = should_fail_impl lvl sc.
 Proof.
-  destruct a as [|s| |], b as [|t| |]; cbn; try (split; congruence).
-  rewrite vtype_eqb_eq. split; [intros ->; reflexivity | intros E; inversion E; auto].
+  unfold should_fail_full, should_fail_impl, plugin_or_attribute_problem, f12b.
+  generalize (s_integrity_ok sc) (s_nonstring_crit sc) (plugin_unusable sc) (enforced_failure lvl sc)
+    (plugin_exec_problem lvl sc) (nothing_processes lvl sc) (plugin_demanded sc) (noncrit_unprocessed lvl sc).
+  intros i ns pu ef pe np dem ncu H1 H2. subst ncu.
+  destruct i, ns, pu, ef, pe, np, dem; cbn in *; congruence.
 Qed.
 
-Definition stage_eqb (x y : err * list result * bool) : bool :=
-  err_eqb (fst (fst x)) (fst (fst y)) && list_eqb result_eqb (snd (fst x)) (snd (fst y))
-  && Bool.eqb (snd x) (snd y).
+Lemma exact_partial lvl sc : wf_sc sc = true ->
+  f12b lvl sc = false -> noncrit_unprocessed lvl sc = false ->
+  (accepted (verify_core lvl sc) = false <-> should_fail_full lvl sc = true).
+Proof. intros W F N. rewrite (full_vs_impl lvl sc F N). now apply exact_iff. Qed.
 
-Lemma stage_eqb_eq x y : stage_eqb x y = true -> x = y.
+(* outside the footprint an accepted signature has every critical extended
+   attribute processed by the executed plugin *)
+Lemma critical_processed_partial lvl sc : wf_sc sc = true ->
+  f12b lvl sc = false -> accepted (verify_core lvl sc) = true ->
+  s_nonstring_crit sc = false
+  /\ (other_crit sc <> [] ->
+      exists processed ti rev cs attrs,
+        s_presp sc = PResp processed ti rev
+        /\ o_exec (verify_core lvl sc) = Some (cs, attrs)
+        /\ forall k, In k (other_crit sc) -> In k processed).
 Proof.
-  destruct x as [[e1 r1] c1], y as [[e2 r2] c2]. unfold stage_eqb; cbn.
-  rewrite !andb_true_iff, err_eqb_eq, Bool.eqb_true_iff, (list_eqb_spec _ result_eqb_eq).
-  intros [[-> ->] ->]. reflexivity.
+  intros W F A.
+  pose proof (core_exact lvl sc W) as E. rewrite A in E. symmetry in E. apply negb_true_iff in E.
+  unfold should_fail_impl, plugin_or_attribute_problem in E. rewrite !orb_false_iff in E.
+  destruct E as [[_ [[[[NS PU] PE] NP] NCU]] _]. split; [exact NS|]. intros OC.
+  assert (AN : nonempty (asked lvl sc) = true).
+  { unfold f12b in F. destruct (plugin_demanded sc); cbn in F, NP.
+    - unfold nothing_processes, has_critical in F. destruct (other_crit sc); [congruence|]. cbn in F.
+      now apply negb_false_iff in F.
+    - unfold nothing_processes, has_critical in NP. destruct (other_crit sc); [congruence|]. cbn in NP.
+      now apply negb_false_iff in NP. }
+  pose proof (shape_parts _ _ _ (core_shape lvl sc W)) as (_ & _ & _ & _ & _ & _ & _ & _ & _ & S11).
+  rewrite A, AN in S11. cbn in S11.
+  destruct (o_exec (verify_core lvl sc)) as [[cs attrs]|] eqn:OE; [|discriminate].
+  unfold plugin_exec_problem in PE. destruct (asked lvl sc) as [|c tv]; [discriminate|].
+  destruct (s_presp sc) as [|processed ti rev]; [discriminate|].
+  rewrite !orb_false_iff in PE. destruct PE as [[CP _] _]. apply negb_false_iff in CP.
+  exists processed, ti, rev, cs, attrs. repeat split.
+  intros k HIn. unfold crit_processed in CP. rewrite forallb_forall in CP. apply mem_str_In. now apply CP.
 Qed.
 
-Lemma native_cases_b lvl sc caps :
-  (if nat_fail lvl sc caps
-   then stop_shape lvl caps (fst (fst (native lvl sc caps))) (snd (fst (native lvl sc caps))) (snd (native lvl sc caps))
-   else stage_eqb (native lvl sc caps) (ENone, nat_results lvl sc caps, native_rev lvl caps)) = true.
+(* the implementation-specific strictness the property is silent about *)
+Lemma noncritical_strictness :
+  exists lvl sc, wf_sc sc = true /\ should_fail_full lvl sc = false /\ other_crit sc = []
+                 /\ accepted (verify_core lvl sc) = false.
 Proof.
-  destruct sc as [integ pa ma mv ot ns au idn ex ts rv p pr].
-  destruct lvl as [la lt le lr].
-  unfold nat_fail, native, stop_shape, nat_results, native_rev, nat_auth_failed, enforced, is_critical_failure.
-  cbn [s_auth s_identity_ok s_expired s_ts_ok s_rev_ok l_auth l_ts l_exp l_rev].
-  generalize (has_cap CapTI caps) (has_cap CapRev caps) (au =? 0)%N. intros hti hrev a0.
-  enum_bool rv. enum_bool hrev. enum_bool ts. enum_bool ex. enum_bool idn. enum_bool hti. enum_bool a0.
-  enum_act lr. enum_act lt. enum_act le. enum_act la.
-  vm_compute; reflexivity.
+  exists (mk_level Enforce Enforce Enforce Enforce),
+         (mk_sc true (AStr "plug") AAbsent false [("note", false)] false 0 true false true true
+                (PMPlugin true true [CapTI]) (PResp [] (Some true) None)).
+  repeat split; vm_compute; reflexivity.
 Qed.
 
-Lemma native_stop lvl sc caps : nat_fail lvl sc caps = true ->
-  stop_shape lvl caps (fst (fst (native lvl sc caps))) (snd (fst (native lvl sc caps))) (snd (native lvl sc caps)) = true.
-Proof. intros H. pose proof (native_cases_b lvl sc caps) as X. now rewrite H in X. Qed.
-
-Lemma native_go lvl sc caps : nat_fail lvl sc caps = false ->
-  native lvl sc caps = (ENone, nat_results lvl sc caps, native_rev lvl caps).
-Proof. intros H. pose proof (native_cases_b lvl sc caps) as X. rewrite H in X. now apply stage_eqb_eq. Qed.
-
-(* ---------- well-formed capability lists: five shapes ---------- *)
-Lemma count_vcaps c caps : c <> CapOther -> count_cap c (verification_caps caps) = count_cap c caps.
+(* ---------- C02_log_reports ---------- *)
+Lemma accepted_results lvl sc : wf_sc sc = true -> accepted (verify_core lvl sc) = true ->
+  o_results (verify_core lvl sc) = expected_results lvl sc.
 Proof.
-  intros NC. induction caps as [|x caps IH]; [reflexivity|].
-  destruct x; cbn [verification_caps filter count_cap]; fold (verification_caps caps);
-    try (rewrite IH; reflexivity).
-  destruct c; cbn; try congruence; exact IH.
+  intros W A. pose proof (shape_parts _ _ _ (core_shape lvl sc W)) as (_ & _ & S3 & _).
+  rewrite A in S3. cbn in S3. now apply (list_eqb_spec _ result_eqb_eq).
 Qed.
 
-Lemma vcaps_no_other caps : Forall (fun c => c <> CapOther) (verification_caps caps).
+Lemma log_reported lvl sc t : wf_sc sc = true -> accepted (verify_core lvl sc) = true ->
+  t <> TIntegrity -> act_of lvl t = Log -> failed_fact sc t = true ->
+  In (mk_res t Log true) (o_results (verify_core lvl sc)).
 Proof.
-  induction caps as [|x caps IH]; [constructor|].
-  destruct x; cbn [verification_caps filter]; fold (verification_caps caps); try assumption;
-    constructor; try assumption; discriminate.
+  intros W A NT AL FF. rewrite (accepted_results lvl sc W A). unfold expected_results.
+  destruct t; cbn in AL, FF; try congruence; rewrite ?AL, ?FF; cbn; auto 6.
 Qed.
 
-Definition shapes : list (list cap) := [[]; [CapTI]; [CapRev]; [CapTI; CapRev]; [CapRev; CapTI]].
+(* acceptance does not depend on the outcome of a validation that is not enforced *)
+Lemma pap_set_auth lvl sc n : plugin_or_attribute_problem lvl (set_auth n sc) = plugin_or_attribute_problem lvl sc.
+Proof. destruct sc; reflexivity. Qed.
+Lemma pap_set_identity lvl sc b : plugin_or_attribute_problem lvl (set_identity b sc) = plugin_or_attribute_problem lvl sc.
+Proof. destruct sc; reflexivity. Qed.
+Lemma pap_set_expired lvl sc b : plugin_or_attribute_problem lvl (set_expired b sc) = plugin_or_attribute_problem lvl sc.
+Proof. destruct sc; reflexivity. Qed.
+Lemma pap_set_ts_ok lvl sc b : plugin_or_attribute_problem lvl (set_ts_ok b sc) = plugin_or_attribute_problem lvl sc.
+Proof. destruct sc; reflexivity. Qed.
+Lemma pap_set_rev_ok lvl sc b : plugin_or_attribute_problem lvl (set_rev_ok b sc) = plugin_or_attribute_problem lvl sc.
+Proof. destruct sc; reflexivity. Qed.
 
-Lemma five_shapes v : Forall (fun c => c <> CapOther) v ->
-  (count_cap CapTI v <= 1)%nat -> (count_cap CapRev v <= 1)%nat -> In v shapes.
+Lemma not_enforce_enforced a f : a <> Enforce -> enforced a f = false.
+Proof. destruct a; cbn; congruence. Qed.
+
+Lemma sfi_not_enforced_auth lvl sc n b : l_auth lvl <> Enforce ->
+  should_fail_impl lvl (set_identity b (set_auth n sc)) = should_fail_impl lvl sc.
 Proof.
-  intros F H1 H2. unfold shapes.
-  destruct v as [|a [|b [|c v]]].
-  - cbn; auto.
-  - inversion F as [|? ? Fa _]; subst. destruct a; try congruence; cbn; auto.
-  - inversion F as [|? ? Fa F1]; subst. inversion F1 as [|? ? Fb _]; subst.
-    destruct a, b; try congruence; cbn in *; try lia; auto 10.
-  - exfalso. inversion F as [|? ? Fa F1]; subst. inversion F1 as [|? ? Fb F2]; subst.
-    inversion F2 as [|? ? Fc _]; subst.
-    destruct a, b, c; try congruence; cbn in *; lia.
+  intros NE. unfold should_fail_impl, enforced_failure.
+  rewrite pap_set_identity, pap_set_auth, !(not_enforce_enforced _ _ NE). destruct sc; reflexivity.
 Qed.
 
-Lemma wf_shapes sc : wf_sc sc = true ->
-  match s_pm sc with PMPlugin _ _ caps => In (verification_caps caps) shapes | _ => True end.
+Lemma sfi_not_enforced_expiry lvl sc b : l_exp lvl <> Enforce ->
+  should_fail_impl lvl (set_expired b sc) = should_fail_impl lvl sc.
 Proof.
-  unfold wf_sc. destruct (s_pm sc) as [| | |v g caps]; auto.
-  rewrite andb_true_iff, !Nat.leb_le. intros [H1 H2].
-  apply five_shapes; [apply vcaps_no_other | |]; rewrite count_vcaps; (assumption || discriminate).
+  intros NE. unfold should_fail_impl, enforced_failure.
+  rewrite pap_set_expired, !(not_enforce_enforced _ _ NE). destruct sc; reflexivity.
 Qed.
 
-(* ---------- attributes: processed = critical ones processed and the others processed ---------- *)
-Definition noncrit_processed (sc : scenario) (processed : list string) : bool :=
-  forallb (fun k => mem_str k processed) (map fst (filter (fun x => negb (snd x)) (s_other sc))).
-
-Lemma all_processed_split sc p : all_processed sc p = crit_processed sc p && noncrit_processed sc p.
+Lemma sfi_not_enforced_ts lvl sc b : l_ts lvl <> Enforce ->
+  should_fail_impl lvl (set_ts_ok b sc) = should_fail_impl lvl sc.
 Proof.
-  unfold all_processed, crit_processed, noncrit_processed, other_keys, other_crit.
-  induction (s_other sc) as [|[k c] l IH]; [reflexivity|].
-  cbn [map filter fst snd forallb]. destruct c; cbn [negb map fst forallb]; rewrite IH;
-    destruct (mem_str k p); cbn; try reflexivity.
-  - destruct (forallb _ (map fst (filter snd l))); reflexivity.
+  intros NE. unfold should_fail_impl, enforced_failure.
+  rewrite pap_set_ts_ok, !(not_enforce_enforced _ _ NE). destruct sc; reflexivity.
 Qed.
 
-Lemma list_eqb_refl {A} (eqb : A -> A -> bool) : (forall x, eqb x x = true) -> forall l, list_eqb eqb l l = true.
-Proof. intros H l. induction l; cbn; [reflexivity|]. now rewrite H, IHl. Qed.
-
-Lemma str_list_eqb_refl l : list_eqb String.eqb l l = true.
-Proof. apply list_eqb_refl. apply String.eqb_refl. Qed.
-
-Ltac enum_all :=
-  repeat match goal with
-  | x : bool |- _ => revert x; apply all_bool_ok
-  | x : action |- _ => revert x; apply all_act_ok
-  | x : option bool |- _ => revert x; apply all_optb_ok
-  end;
-  vm_compute; reflexivity.
-
-Ltac core_unfold :=
-  unfold verify_core, process_signature, process_plugin_response, native, any_critical_attribute,
-    spec_impl, should_fail_impl, spec_shape, plugin_or_attribute_problem, expected_results, enforced_failure, plugin_unusable,
-    plugin_exec_problem, nothing_processes, has_critical, noncrit_unprocessed,
-    authenticity_failed, identity_failed, revocation_failed, asked, caps_of, accepted.
-
-Lemma core_ok lvl sc : wf_sc sc = true -> spec_impl lvl sc (verify_core lvl sc) = true.
+Lemma sfi_not_enforced_rev lvl sc b : l_rev lvl <> Enforce ->
+  should_fail_impl lvl (set_rev_ok b sc) = should_fail_impl lvl sc.
 Proof.
-  intros W.
-  pose proof (discover_spec sc) as DS. pose proof (wf_shapes sc W) as SH.
-  destruct lvl as [la lt le lr].
-  core_unfold.
-  destruct (s_integrity_ok sc) eqn:IO; cbn [negb].
-  2:{ clear. enum_all. }
-  destruct (discover sc) as [e gets | | n vc] eqn:D.
-  - (* discovery error *)
-    destruct DS as [NE PU]. unfold plugin_unusable in PU.
-    revert PU. generalize (s_nonstring_crit sc) (plugin_demanded sc && is_none (usable_caps sc)).
-    intros ns pu PU. clear - NE PU. destruct NE as [-> | ->]; destruct ns, pu; try discriminate PU; clear; enum_all.
-  - (* no plugin demanded *)
-    destruct DS as (PD & NS & UC). rewrite PD, NS, UC.
-    generalize (s_auth sc =? 0)%N (s_identity_ok sc) (s_expired sc) (s_ts_ok sc) (s_rev_ok sc).
-    intros a0 idn ex ts rv.
-    destruct (s_minver_attr sc); destruct (other_crit sc); clear; enum_all.
-  - (* plugin demanded and usable *)
-    destruct DS as (UC & PD & NS & NE & PM). rewrite PD, NS, UC.
-    destruct (s_pm sc) as [| | |v g caps]; try contradiction. subst vc.
-    generalize (s_auth sc =? 0)%N (s_identity_ok sc) (s_expired sc) (s_ts_ok sc) (s_rev_ok sc).
-    intros a0 idn ex ts rv.
-    unfold shapes in SH. cbn [In] in SH.
-    destruct SH as [E|[E|[E|[E|[E|[]]]]]]; rewrite <- E in *; [congruence| | | |].
-    all: destruct (s_presp sc) as [|processed ti rev].
-    all: rewrite ?all_processed_split; unfold crit_processed.
-    all: destruct (other_crit sc) as [|x l].
-    all: try generalize (forallb (fun k : string => mem_str k processed) (x :: l)).
-    all: try generalize (noncrit_processed sc processed).
-    all: intros; clear; enum_all.
+  intros NE. unfold should_fail_impl, enforced_failure.
+  rewrite pap_set_rev_ok, !(not_enforce_enforced _ _ NE). destruct sc; reflexivity.
+Qed.
+
+Lemma wf_set_auth n sc : wf_sc (set_auth n sc) = wf_sc sc. Proof. destruct sc; reflexivity. Qed.
+Lemma wf_set_identity b sc : wf_sc (set_identity b sc) = wf_sc sc. Proof. destruct sc; reflexivity. Qed.
+Lemma wf_set_expired b sc : wf_sc (set_expired b sc) = wf_sc sc. Proof. destruct sc; reflexivity. Qed.
+Lemma wf_set_ts_ok b sc : wf_sc (set_ts_ok b sc) = wf_sc sc. Proof. destruct sc; reflexivity. Qed.
+Lemma wf_set_rev_ok b sc : wf_sc (set_rev_ok b sc) = wf_sc sc. Proof. destruct sc; reflexivity. Qed.
+
+Lemma log_does_not_fail lvl sc : wf_sc sc = true ->
+  (l_auth lvl <> Enforce -> forall n b,
+     accepted (verify_core lvl (set_identity b (set_auth n sc))) = accepted (verify_core lvl sc))
+  /\ (l_exp lvl <> Enforce -> forall b,
+     accepted (verify_core lvl (set_expired b sc)) = accepted (verify_core lvl sc))
+  /\ (l_ts lvl <> Enforce -> forall b,
+     accepted (verify_core lvl (set_ts_ok b sc)) = accepted (verify_core lvl sc))
+  /\ (l_rev lvl <> Enforce -> forall b,
+     accepted (verify_core lvl (set_rev_ok b sc)) = accepted (verify_core lvl sc)).
+Proof.
+  intros W. repeat split; intros NE; intros.
+  - rewrite !core_exact; [|exact W | now rewrite wf_set_identity, wf_set_auth]. now rewrite sfi_not_enforced_auth.
+  - rewrite !core_exact; [|exact W | now rewrite wf_set_expired]. now rewrite sfi_not_enforced_expiry.
+  - rewrite !core_exact; [|exact W | now rewrite wf_set_ts_ok]. now rewrite sfi_not_enforced_ts.
+  - rewrite !core_exact; [|exact W | now rewrite wf_set_rev_ok]. now rewrite sfi_not_enforced_rev.
+Qed.
+
+(* ---------- C02_actions ---------- *)
+Lemma is_prefix_firstn a b : is_prefix a b = true -> a = firstn (List.length a) b.
+Proof.
+  revert b. induction a as [|x a IH]; intros [|y b]; cbn; try congruence.
+  rewrite andb_true_iff, vtype_eqb_eq. intros [-> H]. f_equal. now apply IH.
+Qed.
+
+Lemma actions_ok lvl sc : wf_sc sc = true ->
+  Forall (fun r => r_action r = act_of lvl (r_type r)) (o_results (verify_core lvl sc))
+  /\ exists k, map r_type (o_results (verify_core lvl sc)) = firstn k type_order.
+Proof.
+  intros W. pose proof (shape_parts _ _ _ (core_shape lvl sc W)) as (S1 & S2 & _). split.
+  - apply Forall_forall. intros r HIn. rewrite forallb_forall in S1. now apply action_eqb_eq, S1.
+  - eexists. now apply is_prefix_firstn.
+Qed.
+
+(* ---------- C02_skip_not_performed ---------- *)
+Lemma has_cap_In c l : has_cap c l = true <-> In c l.
+Proof.
+  unfold has_cap. rewrite existsb_exists. split.
+  - intros (x & HIn & E). destruct c, x; cbn in E; congruence.
+  - intros HIn. exists c. split; [exact HIn | destruct c; reflexivity].
+Qed.
+
+Lemma skip_not_performed lvl sc : wf_sc sc = true -> l_rev lvl = Skip ->
+  o_rev_called (verify_core lvl sc) = false
+  /\ (forall cs attrs, o_exec (verify_core lvl sc) = Some (cs, attrs) -> ~ In CapRev cs)
+  /\ (forall r, In r (o_results (verify_core lvl sc)) -> r_type r <> TRev).
+Proof.
+  intros W SK. pose proof (shape_parts _ _ _ (core_shape lvl sc W)) as (_ & _ & _ & _ & _ & _ & S7 & _).
+  rewrite SK in S7. cbn in S7. rewrite !andb_true_iff, !negb_true_iff in S7. destruct S7 as [[RC EX] RS].
+  split; [exact RC|]. split.
+  - intros cs attrs E. rewrite E in EX. apply negb_true_iff in EX. intros HIn. apply has_cap_In in HIn. congruence.
+  - intros r HIn Ht. assert (X : existsb (fun r => vtype_eqb (r_type r) TRev) (o_results (verify_core lvl sc)) = true).
+    { apply existsb_exists. exists r. split; [exact HIn | now apply vtype_eqb_eq]. }
+    congruence.
+Qed.
+
+(* ---------- C02_capability_replaces ---------- *)
+Lemma discover_usable sc n vc : discover sc = DPlugin n vc -> usable_caps sc = Some vc.
+Proof. intros D. pose proof (discover_spec sc) as DS. rewrite D in DS. tauto. Qed.
+
+Lemma discover_none sc : discover sc = DNoPlugin -> usable_caps sc = None.
+Proof. intros D. pose proof (discover_spec sc) as DS. rewrite D in DS. tauto. Qed.
+
+Lemma native_identity_irrelevant lvl sc caps b : has_cap CapTI caps = true ->
+  native lvl (set_identity b sc) caps = native lvl sc caps.
+Proof. intros H. unfold native. rewrite H. destruct sc; reflexivity. Qed.
+
+Lemma native_rev_irrelevant lvl sc caps b : has_cap CapRev caps = true ->
+  native lvl (set_rev_ok b sc) caps = native lvl sc caps.
+Proof.
+  intros H. unfold native. rewrite H, andb_false_r. destruct sc; reflexivity.
+Qed.
+
+Lemma replaces_identity lvl sc caps b : usable_caps sc = Some caps -> has_cap CapTI caps = true ->
+  verify_core lvl (set_identity b sc) = verify_core lvl sc.
+Proof.
+  intros U H. unfold verify_core, process_signature.
+  change (s_integrity_ok (set_identity b sc)) with (s_integrity_ok sc).
+  replace (discover (set_identity b sc)) with (discover sc) by (destruct sc; reflexivity).
+  destruct (s_integrity_ok sc); [|reflexivity]. cbn [negb].
+  destruct (discover sc) as [e gets| |n vc] eqn:D; [reflexivity | |].
+  - apply discover_none in D. congruence.
+  - apply discover_usable in D. assert (vc = caps) by congruence. subst vc.
+    rewrite (native_identity_irrelevant lvl sc caps b H).
+    destruct sc; reflexivity.
+Qed.
+
+Lemma replaces_revocation lvl sc caps b : usable_caps sc = Some caps -> has_cap CapRev caps = true ->
+  verify_core lvl (set_rev_ok b sc) = verify_core lvl sc.
+Proof.
+  intros U H. unfold verify_core, process_signature.
+  change (s_integrity_ok (set_rev_ok b sc)) with (s_integrity_ok sc).
+  replace (discover (set_rev_ok b sc)) with (discover sc) by (destruct sc; reflexivity).
+  destruct (s_integrity_ok sc); [|reflexivity]. cbn [negb].
+  destruct (discover sc) as [e gets| |n vc] eqn:D; [reflexivity | |].
+  - apply discover_none in D. congruence.
+  - apply discover_usable in D. assert (vc = caps) by congruence. subst vc.
+    rewrite (native_rev_irrelevant lvl sc caps b H).
+    destruct sc; reflexivity.
+Qed.
+
+Lemma replaces_rev_call lvl sc caps : wf_sc sc = true -> usable_caps sc = Some caps -> has_cap CapRev caps = true ->
+  o_rev_called (verify_core lvl sc) = false.
+Proof.
+  intros W U H. pose proof (shape_parts _ _ _ (core_shape lvl sc W)) as (_ & _ & _ & _ & _ & _ & _ & S8 & _).
+  unfold caps_of in S8. rewrite U, H in S8. cbn in S8. rewrite orb_false_r in S8. now apply negb_true_iff in S8.
+Qed.
+
+(* with the capability declared, the verdict used is the plugin's *)
+Lemma replaces_verdict sc caps : usable_caps sc = Some caps ->
+  (has_cap CapTI caps = true ->
+     identity_failed sc = match s_presp sc with PResp _ (Some false) _ => true | _ => false end)
+  /\ (has_cap CapRev caps = true ->
+     revocation_failed sc = match s_presp sc with PResp _ _ (Some false) => true | _ => false end).
+Proof. intros U. unfold identity_failed, revocation_failed, caps_of. rewrite U. split; intros ->; reflexivity. Qed.
+
+(* ---------- what the plugin is handed ---------- *)
+Lemma plugin_request lvl sc cs attrs : wf_sc sc = true ->
+  o_exec (verify_core lvl sc) = Some (cs, attrs) ->
+  cs = asked lvl sc /\ cs <> [] /\ attrs = other_keys sc.
+Proof.
+  intros W E.
+  pose proof (shape_parts _ _ _ (core_shape lvl sc W)) as (_ & _ & _ & _ & _ & _ & _ & _ & S10 & _).
+  rewrite E in S10. apply andb_true_iff in S10. destruct S10 as [NE EQ].
+  assert (CE : forall a b, cap_eqb a b = true <-> a = b) by (intros [] []; cbn; split; congruence).
+  apply (list_eqb_spec _ CE) in EQ. split; [exact EQ|]. split; [destruct cs; [discriminate|congruence]|].
+  revert E. unfold verify_core, process_signature.
+  destruct (negb (s_integrity_ok sc)); [discriminate|].
+  destruct (discover sc) as [e gets| |n vc]; [discriminate| |].
+  all: destruct (native lvl sc _) as [[e rs] c]; destruct e; try discriminate.
+  all: destruct (caps_to_verify lvl _) as [|c0 tv].
+  all: try (destruct (_ && _); discriminate).
+  all: destruct (s_presp sc) as [|p ti rv]; [cbn; congruence|].
+  all: destruct (process_plugin_response lvl sc (c0 :: tv) p ti rv rs); cbn; congruence.
+Qed.
+
+(* ---------- C02_monotone ---------- *)
+Lemma caps_of_shapes sc : wf_sc sc = true -> In (caps_of sc) shapes.
+Proof.
+  intros W. pose proof (wf_shapes sc W) as SH. unfold caps_of, usable_caps.
+  assert (N : In (@nil cap) shapes) by (cbn; auto).
+  destruct (s_plugin_attr sc) as [| | |name]; try exact N.
+  destruct (blank name); [exact N|].
+  destruct (attr_malformed (s_minver_attr sc)); [exact N|].
+  destruct (match s_minver_attr sc with AStr _ => negb (s_minver_valid sc) | _ => false end); [exact N|].
+  destruct (s_pm sc) as [| | |[] [] caps]; try exact N.
+  destruct (verification_caps caps) eqn:E; [exact N|]. exact SH.
+Qed.
+
+Lemma enforced_mono a1 a2 f : action_le a1 a2 = true -> enforced a2 f = true -> enforced a1 f = true.
+Proof. destruct a1, a2, f; cbn; congruence. Qed.
+
+(* the plugin / attribute problems depend on the level only through the
+   action of revocation, and relaxing it can only remove problems *)
+Lemma pap_mono l1 l2 sc : wf_sc sc = true -> action_le (l_rev l1) (l_rev l2) = true ->
+  plugin_or_attribute_problem l2 sc = true -> plugin_or_attribute_problem l1 sc = true.
+Proof.
+  intros W. pose proof (caps_of_shapes sc W) as SH.
+  destruct l1 as [a1 t1 e1 r1], l2 as [a2 t2 e2 r2]. cbn [l_rev].
+  unfold plugin_or_attribute_problem, plugin_exec_problem, nothing_processes, noncrit_unprocessed, asked, caps_to_verify.
+  cbn [l_rev].
+  generalize (s_nonstring_crit sc) (plugin_unusable sc) (plugin_demanded sc) (has_critical sc).
+  intros ns pu dem hc.
+  assert (G : forall x y : bool, (negb x || y) = true -> x = true -> y = true) by (intros [] []; cbn; congruence).
+  intros LE. apply G. revert LE. apply G. clear G.
+  unfold shapes in SH. cbn [In] in SH.
+  destruct SH as [<-|[<-|[<-|[<-|[<-|[]]]]]];
+    (destruct (s_presp sc) as [|p ti rv];
+     [| generalize (crit_processed sc p) (all_processed sc p); intros cp ap]);
+    clear; enum_all.
+Qed.
+
+Lemma sfi_mono l1 l2 sc : wf_sc sc = true -> level_le l1 l2 = true ->
+  should_fail_impl l2 sc = true -> should_fail_impl l1 sc = true.
+Proof.
+  intros W LE. unfold level_le in LE. rewrite !andb_true_iff in LE. destruct LE as [[[LA LT] LX] LR].
+  unfold should_fail_impl, enforced_failure. rewrite !orb_true_iff.
+  intros [[I | P] | [[[A | X] | T] | R]].
+  - auto.
+  - left. right. eapply pap_mono; eassumption.
+  - right. left. left. left. eapply enforced_mono; eassumption.
+  - right. left. left. right. eapply enforced_mono; eassumption.
+  - right. left. right. eapply enforced_mono; eassumption.
+  - right. right. eapply enforced_mono; eassumption.
+Qed.
+
+Lemma monotone l1 l2 sc : wf_sc sc = true -> level_le l1 l2 = true ->
+  accepted (verify_core l1 sc) = true -> accepted (verify_core l2 sc) = true.
+Proof.
+  intros W LE. rewrite !core_exact by exact W. rewrite !negb_true_iff.
+  intros H. destruct (should_fail_impl l2 sc) eqn:E; [|reflexivity].
+  rewrite (sfi_mono l1 l2 sc W LE E) in H. discriminate.
+Qed.
+
+(* strict -> permissive -> audit under the same override *)
+Lemma monotone_named ov sc ls lp la : wf_sc sc = true ->
+  level_for "strict" ov = Some ls -> level_for "permissive" ov = Some lp -> level_for "audit" ov = Some la ->
+  (accepted (verify_core ls sc) = true -> accepted (verify_core lp sc) = true)
+  /\ (accepted (verify_core lp sc) = true -> accepted (verify_core la sc) = true).
+Proof.
+  intros W S P A. split; apply monotone; try exact W.
+  - eapply named_order; [left; split; reflexivity | exact S | exact P].
+  - eapply named_order; [right; left; split; reflexivity | exact P | exact A].
+Qed.
+
+(* ---------- the oracle ---------- *)
+Lemma oracle_bool (i ns pu ef pe np dem ncu : bool) :
+  (dem && np) && negb (negb i || (ns || pu || pe || (negb dem && np) || ncu) || ef) = false ->
+  (if negb i || ns || pu || ef || pe || np
+   then negb (negb (negb i || (ns || pu || pe || (negb dem && np) || ncu) || ef))
+   else if ncu then true else negb (negb i || (ns || pu || pe || (negb dem && np) || ncu) || ef)) = true.
+Proof. destruct i, ns, pu, ef, pe, np, dem, ncu; cbn; congruence. Qed.
+
+Lemma spec_ok_obs_partial lvl sc : wf_sc sc = true ->
+  f12b lvl sc && negb (should_fail_impl lvl sc) = false ->
+  spec_ok_obs lvl sc (verify_core lvl sc) = true.
+Proof.
+  intros W F. unfold spec_ok_obs. rewrite (core_shape lvl sc W), andb_true_r.
+  rewrite (core_exact lvl sc W). revert F.
+  unfold should_fail_full, should_fail_impl, plugin_or_attribute_problem, f12b.
+  apply oracle_bool.
+Qed.
+
+Lemma model_spec_ok_partial i : wf i = true -> fp i = 0%N -> spec_ok i (model i) = true.
+Proof.
+  unfold wf, fp, spec_ok, model. intros W F.
+  destruct (get_level (i_level i) (i_override i)) as [e|[nm enf]]; [reflexivity|].
+  destruct (String.eqb (i_level i) "skip") eqn:SK; [reflexivity|].
+  apply spec_ok_obs_partial; [exact W|].
+  destruct (f12b (level_of enf) (i_sc i) && negb (should_fail_impl (level_of enf) (i_sc i))); [discriminate|reflexivity].
+Qed.
+
+Lemma model_spec_ok_refuted : exists i, wf i = true /\ fp i = 1%N /\ spec_ok i (model i) = false.
+Proof.
+  exists (mk_input "strict" [("revocation", "skip")] f12b_scenario). repeat split; vm_compute; reflexivity.
 Qed.
